@@ -51,6 +51,9 @@ type Script struct {
 	Empty bool `json:"empty,omitempty"`
 	// ValueReaders: the members hand out readers whose dynamic type is a struct value, not a pointer
 	ValueReaders bool `json:"value_readers,omitempty"`
+	// Streaming: the members' readers deliver their content and then wait, in Read, for Close or for the
+	// cancellation of their context instead of reporting the end (never together with ReadAll)
+	Streaming bool `json:"streaming,omitempty"`
 	// ReadAll: the returned reader is read to its end before it is closed
 	ReadAll bool `json:"read_all,omitempty"`
 	// Timed variant: instead of exact events, members answer after virtual delays.
@@ -68,14 +71,32 @@ type reader struct {
 	closed   int
 	closeErr bool
 	r        *strings.Reader
+	// streaming: once the content is delivered Read does not report the end: it waits until the reader
+	// is closed or its context is cancelled (a body whose sender is in no hurry)
+	streaming bool
+	done      chan struct{}
 	// deadAtClose: the context the member was given had been cancelled before Close was called on
 	// the reader (a member that needs its context to wind the read down would fail)
 	deadAtClose bool
 }
 
-func (r *reader) Read(p []byte) (int, error) { return r.r.Read(p) }
+func (r *reader) Read(p []byte) (int, error) {
+	n, err := r.r.Read(p)
+	if err == io.EOF && r.streaming {
+		select {
+		case <-r.done:
+			return 0, errors.New("read on a closed reader")
+		case <-r.ctx.Done():
+			return 0, r.ctx.Err()
+		}
+	}
+	return n, err
+}
 func (r *reader) Close() error {
 	r.closed++
+	if r.closed == 1 && r.done != nil {
+		close(r.done)
+	}
 	if r.closed == 1 && r.ctx.Err() != nil {
 		r.deadAtClose = true // the member's context was already cancelled when its reader was being closed
 	}
@@ -100,6 +121,7 @@ type member struct {
 	// valueReaders: hand out struct-valued readers
 	valueReaders bool
 	empty        bool
+	streaming    bool
 
 	entered  bool
 	ctx      context.Context
@@ -144,7 +166,7 @@ func (m *member) read(ctx context.Context) (ociregistry.BlobReader, error) {
 	if m.empty {
 		content = ""
 	}
-	r := &reader{member: m.id, ctx: ctx, r: strings.NewReader(content), closeErr: m.closeErr}
+	r := &reader{member: m.id, ctx: ctx, r: strings.NewReader(content), closeErr: m.closeErr, streaming: m.streaming, done: make(chan struct{})}
 	m.readers = append(m.readers, r)
 	if m.valueReaders {
 		return valueReader{r}, nil
@@ -227,7 +249,7 @@ func run(s Script, v *vt.V) {
 		base := bubbleGoroutines()
 		ms := [2]*member{}
 		for i := range ms {
-			ms[i] = &member{id: i, ok: s.OK[i], mode: s.Mode[i], release: make(chan struct{}), closeErr: s.CloseErr, ctxErr: s.CtxErr, valueReaders: s.ValueReaders, empty: s.Empty}
+			ms[i] = &member{id: i, ok: s.OK[i], mode: s.Mode[i], release: make(chan struct{}), closeErr: s.CloseErr, ctxErr: s.CtxErr, valueReaders: s.ValueReaders, empty: s.Empty, streaming: s.Streaming}
 			if s.Timed {
 				ms[i].delay = time.Duration(s.Delay[i]) * time.Millisecond
 			}
@@ -248,6 +270,11 @@ func run(s Script, v *vt.V) {
 		isReader := !strings.HasPrefix(s.Entry, "Resolve")
 		go func() {
 			dg := digest.FromString("x")
+			if s.Streaming || s.Empty {
+				// (these variants ask under the sha512 name of the content; the members describe what
+				// they hold by its sha256 name, as registries that store under one algorithm do)
+				dg = digest.SHA512.FromString("x")
+			}
 			var d ociregistry.Descriptor
 			switch s.Entry {
 			case "GetBlob":
@@ -648,7 +675,7 @@ func TestPropSchedules(t *testing.T) {
 	prop = &vt.Prop[Script]{
 		ID:   "C16",
 		Name: "UnifyConcurrentSchedules",
-		Rule: "complete enumeration, executed in synctest bubbles with every event separated by synctest.Wait: 5 read entry points x 2x2 member outcomes x both completion orders x caller cancellation {none, before any answer, between the answers, after both, after the reader was closed} x returned reader closed before / after the loser answers x reader Close succeeding / failing x the returned reader read to its end before it is closed or not, schedules without caller cancellation also under a caller context that can never be cancelled, plus members that answer only once their context is cancelled (one or both) and members that answer at the same instant; every schedule also with the unifier under test laid over another concurrent unifier (seen through a probe that records the context it is handed) and a registry that is down; reader schedules also with members whose readers are struct values rather than pointers, and with empty content; oracle = the call returns exactly when the ordered events decide it, with the first successful answer (error only if both failed or the caller cancelled first; when a cancellation-driven answer coincides with the cancellation either is accepted); the chosen member's context is live until the returned reader is closed and cancelled afterwards (resolve-style: cancelled on return); every reader of the member not chosen is closed; both members' contexts end cancelled; the number of goroutines in the bubble is back at its baseline; non-trivial = some member succeeds or the caller cancels; distinct = the schedule",
+		Rule: "complete enumeration, executed in synctest bubbles with every event separated by synctest.Wait: 5 read entry points x 2x2 member outcomes x both completion orders x caller cancellation {none, before any answer, between the answers, after both, after the reader was closed} x returned reader closed before / after the loser answers x reader Close succeeding / failing x the returned reader read to its end before it is closed or not, schedules without caller cancellation also under a caller context that can never be cancelled, plus members that answer only once their context is cancelled (one or both) and members that answer at the same instant; every schedule also with the unifier under test laid over another concurrent unifier (seen through a probe that records the context it is handed) and a registry that is down; reader schedules also with members whose readers are struct values rather than pointers, with empty content, and with readers that wait in Read for Close or cancellation once their content is delivered (the last two asked for under the sha512 name of content the members describe by its sha256 name); oracle = the call returns exactly when the ordered events decide it, with the first successful answer (error only if both failed or the caller cancelled first; when a cancellation-driven answer coincides with the cancellation either is accepted); the chosen member's context is live until the returned reader is closed and cancelled afterwards (resolve-style: cancelled on return); every reader of the member not chosen is closed; both members' contexts end cancelled; the number of goroutines in the bubble is back at its baseline; non-trivial = some member succeeds or the caller cancels; distinct = the schedule",
 		Run:  run,
 	}
 	shard, shards := vt.Shard()
@@ -678,6 +705,9 @@ func TestPropSchedules(t *testing.T) {
 				se := s0
 				se.Empty = true
 				variants = append(variants, se)
+				ss := s0
+				ss.Streaming = true
+				variants = append(variants, ss)
 			}
 			for _, s := range variants {
 				k++
